@@ -1144,3 +1144,44 @@ def orientation_of_region(P, B, region, sides):
                     o = None if base is None else base * (-1) ** (f + fi)
                     out.append((CB, cbb, nm, o, (operand_chain(CB, t['args'][0]), operand_chain(CB, t['args'][1]))))
     return out
+
+
+# ------------------------------------------------------------ key dependencies ----
+def key_fields(P, B, key_op, ty):
+    """Which fields of struct `ty` does the value of operand `key_op` depend on?  Backward slice inside body B
+    (a definition contributes when the key lies in its forward slice); a call to a repository function that is
+    handed a `ty` contributes the fields that function's bodies read.  Returns (fields, helper functions)."""
+    targets = set(B._op_locals(key_op))
+    o = B.origin(key_op)
+    if o[0] == 'call':
+        targets.add(B.blocks[o[2]]['t']['dst']['l'])
+    fields, helpers = set(), set()
+    short = ty.rsplit('::', 1)[1]
+
+    def place_fields(pl):
+        return {e['n'] for e in (pl.get('p') or []) if isinstance(e, dict) and e.get('adt') == ty and 'n' in e}
+    cache = {}
+
+    def reaches(d):
+        if d not in cache:
+            cache[d] = bool((B.derived_locals([d]) | {d}) & targets)
+        return cache[d]
+    for bb in sorted(B.live_blocks()):
+        blk = B.blocks[bb]
+        for st in blk['s']:
+            if st['k'] != '=' or not reaches(st['pl']['l']):
+                continue
+            for pl in _places_of_stmt(st)[1:]:
+                fields |= place_fields(pl)
+        t = blk['t']
+        if t['k'] == 'call' and reaches(t['dst']['l']):
+            for a in t['args']:
+                if a['k'] in ('cp', 'mv'):
+                    fields |= place_fields(a['pl'])
+            if any(short in x for x in (t.get('aty') or [])):
+                for n in callee_names(t):
+                    if any(q == n or q.startswith(n + '::{') for q in P.F.bodies) and not n.startswith(ty):
+                        helpers.add(n)
+                        for HB in bodies_of_fn(P, n):
+                            fields |= fields_touched(HB, ty)
+    return fields, helpers
